@@ -288,3 +288,71 @@ Proof.
 Qed.
 
 End Comp.
+
+(* ---------- constants computed from well-formed constants are well-formed ---------- *)
+
+Lemma orel_ok_cwf r v : Sim.orel r (Ok v) -> cwf v.
+Proof. intros H. inversion H; subst. eapply vrel_cwf_r; eauto. Qed.
+
+Lemma calc_cwf op a b v : cwf a -> cwf b -> calc op a b = Ok v -> cwf v.
+Proof.
+  intros Ha Hb E. apply (orel_ok_cwf (calc op a b)). rewrite <- E.
+  apply OpsProofs.calc_rel; apply cwf_vrel; auto.
+Qed.
+
+Lemma ucalc_cwf op a v : cwf a -> ucalc op a = Ok v -> cwf v.
+Proof.
+  intros Ha E. apply (orel_ok_cwf (ucalc op a)). rewrite <- E. apply OpsProofs.ucalc_rel; apply cwf_vrel; auto.
+Qed.
+
+Lemma access_list_cwf l i v : cwf l -> cwf i -> access_list l i = Ok v -> cwf v.
+Proof.
+  intros Hl Hi E. apply (orel_ok_cwf (access_list l i)). rewrite <- E.
+  apply OpsProofs.access_list_rel; apply cwf_vrel; auto.
+Qed.
+
+Lemma access_map_cwf m k v : cwf m -> access_map m k = Ok v -> cwf v.
+Proof.
+  intros Hm E. apply (orel_ok_cwf (access_map m k)). rewrite <- E.
+  apply OpsProofs.access_map_rel; apply cwf_vrel; auto.
+Qed.
+
+Lemma run_static_cwf f cs v : Forall cwf cs -> run_static f cs = Ok v -> cwf v.
+Proof.
+  intros Hc E. apply (orel_ok_cwf (run_static f cs)). rewrite <- E.
+  apply LibProofs.run_static_rel. apply cwf_list_vrel; auto.
+Qed.
+
+Lemma cwf_VList vs : Forall cwf vs -> cwf (VList vs).
+Proof. cbn [cwf]. induction 1; auto. Qed.
+
+Lemma cwf_VMap (vs : list (str * value)) : Forall (fun e => cwf (snd e)) vs -> cwf (VMap vs).
+Proof. cbn [cwf]. induction 1; auto. Qed.
+
+Section GenTimeRel.
+Variable known : list (N * list name).
+Variable fuel : nat.
+
+(* an application at Generate time: the reference semantics computes, with the same fuel, a value
+   that the C01 relation relates to the result *)
+Theorem gapp_rel c cs v :
+  cwf c -> Forall cwf cs -> gapp known fuel c cs = Ok v ->
+  exists v1, r_app (eval known fuel) c cs = Ok v1 /\ Sim.vrel v1 v.
+Proof.
+  intros Hc Hcs G.
+  pose proof (sim_app _ _ (exec_sim_at known fuel) c c cs cs (cwf_vrel _ Hc) (cwf_list_vrel _ Hcs)) as O.
+  rewrite <- gapp_is_g_app, G in O. inversion O as [v1 v2 Hv E1 E2| | | |]; subst. eauto.
+Qed.
+
+Theorem method_rel rv m cs v :
+  cwf rv -> Forall cwf cs -> run_method (gapp known fuel) rv m cs = Ok v ->
+  exists v1, run_method (r_app (eval known fuel)) rv m cs = Ok v1 /\ Sim.vrel v1 v.
+Proof.
+  intros Hr Hcs G.
+  pose proof (run_method_rel (r_app (eval known fuel)) (g_app (exec known fuel))
+                (sim_app _ _ (exec_sim_at known fuel)) rv rv m cs cs (cwf_vrel _ Hr) (cwf_list_vrel _ Hcs)) as O.
+  change (g_app (exec known fuel)) with (gapp known fuel) in O. rewrite G in O.
+  inversion O as [v1 v2 Hv E1 E2| | | |]; subst. eauto.
+Qed.
+
+End GenTimeRel.
